@@ -1,7 +1,7 @@
 (* Protocol entry point of the extracted model: one command + hex arguments in, one JSON line out. *)
 From Coq Require Import String Ascii List ZArith NArith Bool.
 From SDP Require Import Base PyStr Regex Json Codec LR RealTables Lexer Actions Parse Engine Seq Output Pre Api Entity Table Alter.
-From SDP Require TypeDom.
+From SDP Require TypeDom TypeObj.
 Import ListNotations.
 Open Scope string_scope.
 
@@ -107,6 +107,14 @@ Definition dispatch (cmd : string) (args : list string) : string :=
         JObj [("wf", JBool (TypeDom.wf (String.eqb norm "1") d));
               ("lexemes", JArr (map (fun lx => JArr [JStr (fst lx); JStr (snd lx)]) (TypeDom.lexemes d)));
               ("denote", json_of_pyval (TypeDom.denote (String.eqb norm "1") d))]
+      end
+  | "to_spec", norm :: rest =>
+      match TypeObj.tobj_of_args rest with
+      | None => JObj [("unsupported", JStr "bad object type args")]
+      | Some o =>
+        JObj [("wf", JBool (TypeObj.wf (String.eqb norm "1") o));
+              ("lexemes", JArr (map (fun lx => JArr [JStr (fst lx); JStr (snd lx)]) (TypeObj.lexemes o)));
+              ("denote", json_of_pyval (TypeObj.denote (String.eqb norm "1") o))]
       end
   | "seq_spec", norm :: rest =>
       match seq_of_args rest with
